@@ -18,10 +18,16 @@ From Coq Require Import List ZArith NArith Bool.
 From XV Require Import Lib.Sx.
 Import ListNotations.
 
-(* what one execution of the select observed *)
+(* what one iteration of the loop observed.  The tick branch is four separate steps in the code:
+   receive from ticker.C; poll quit without blocking (closed: return); transport.Ping(); and, when
+   the ping failed, a second look at quit (closed: return WITHOUT Close - the session ended while
+   the ping was under way, the transport may already belong to the next connection).  The receiver
+   can close quit between any two of them. *)
 Inductive sel :=
-| STick      (* ticker.C was ready and was chosen *)
-| SQuit.     (* the closed quit channel was chosen *)
+| STick      (* tick taken, quit open at the poll, the ping ran, quit still open afterwards *)
+| STickLate  (* tick taken, quit open at the poll, the ping ran, quit CLOSED by the time the loop
+                looked again: the one ping that can follow the end of the session *)
+| SQuit.     (* quit observed: by the select, or by the poll that follows a tick *)
 
 (* what the goroutine does, in program order *)
 Inductive act :=
@@ -45,6 +51,10 @@ Definition ka_step (fail : nat -> bool) (st : kstate) (s : sel) : kstate * list 
       | STick =>
           if fail (S np)
           then (Stopped, [APingFail; ATickerStop; AClose; AReturn])
+          else (Running (S np), [APingOk])
+      | STickLate =>
+          if fail (S np)
+          then (Stopped, [APingFail; ATickerStop; AReturn])   (* no Close: the session is already over *)
           else (Running (S np), [APingOk])
       | SQuit => (Stopped, [ATickerStop; AReturn])
       end
@@ -74,8 +84,10 @@ Definition is_ping (a : act) : bool :=
 Definition is_pingfail (a : act) : bool := match a with APingFail => true | _ => false end.
 Definition is_close (a : act) : bool := match a with AClose => true | _ => false end.
 Definition is_return (a : act) : bool := match a with AReturn => true | _ => false end.
-Definition is_tick (s : sel) : bool := match s with STick => true | SQuit => false end.
-Definition is_quit (s : sel) : bool := match s with SQuit => true | STick => false end.
+Definition is_tick (s : sel) : bool := match s with STick | STickLate => true | SQuit => false end.
+Definition is_quit (s : sel) : bool := match s with SQuit => true | _ => false end.
+Definition is_late (s : sel) : bool := match s with STickLate => true | _ => false end.
+Definition is_plain_tick (s : sel) : bool := match s with STick => true | _ => false end.
 Definition count {A} (p : A -> bool) (l : list A) : nat := length (filter p l).
 
 (* the steps of the schedule the loop actually takes: up to and including the
@@ -85,6 +97,7 @@ Fixpoint taken (fail : nat -> bool) (np : nat) (sched : list sel) : list sel :=
   | [] => []
   | SQuit :: _ => [SQuit]
   | STick :: rest => if fail (S np) then [STick] else STick :: taken fail (S np) rest
+  | STickLate :: rest => if fail (S np) then [STickLate] else STickLate :: taken fail (S np) rest
   end.
 
 (* the actions that follow the first AReturn *)
@@ -134,63 +147,131 @@ Inductive cact :=
 Definition stream_close_data : str :=
   [60; 47; 115; 116; 114; 101; 97; 109; 58; 115; 116; 114; 101; 97; 109; 62]%N.
 
-Definition xmpp_close (r : wres) : list cact := [CWrite stream_close_data; CConnClose].
+(* the result of the closing tag's write is not looked at (`_, _ = readWriter.Write(...)`) *)
+Definition xmpp_close : list cact := [CWrite stream_close_data; CConnClose].
 
-(* what the loop does to the connection underneath the TCP transport; [cr] is the result
-   of the closing tag's write *)
-Definition conn_trace (cr : wres) (tr : list act) : list cact :=
+(* what the loop does to the connection underneath the TCP transport *)
+Definition conn_trace (tr : list act) : list cact :=
   flat_map (fun a => match a with
                      | APingOk | APingFail => [CWrite (fst (xmpp_ping (WOk 1)))]
-                     | AClose => xmpp_close cr
+                     | AClose => xmpp_close
                      | _ => []
                      end) tr.
 Definition is_connclose (c : cact) : bool := match c with CConnClose => true | _ => false end.
 
 (* ---- environment level: where schedules come from ----
-   ticker.C has one slot (a fire while a tick is pending is dropped); quit is
-   closed at most once; a select with nothing ready blocks (no step), with one
-   case ready takes it; with both ready the runtime picks one at random (the bit), but the
-   tick branch polls quit before pinging and returns if it is closed, so either way the
-   loop observes quit: [STick] in a schedule means "tick taken AND quit still open". *)
+   ticker.C has one slot (a fire while a tick is pending is dropped); quit is closed at most once, at
+   ANY point between two steps of the loop.  The loop's own steps: ESelect (blocks with nothing ready,
+   takes the only ready case, the random bit decides when both are), then after a tick EPoll (quit
+   closed: return), EPing, ERecheck (emits the iteration: late iff quit is closed by now). *)
 Inductive ev :=
 | EFire                     (* the ticker fires *)
 | ECloseQuit                (* the receive loop closes quit *)
-| ESelect (pick_tick : bool).
+| ESelect (pick_tick : bool)
+| EPoll                     (* the non-blocking look at quit after a tick *)
+| EPing                     (* transport.Ping() *)
+| ERecheck.                 (* back in the loop after the ping (the second look at quit when it failed) *)
 
-Fixpoint resolve (pending closed : bool) (evs : list ev) : list sel :=
+Inductive phase :=
+| PIdle     (* at the select *)
+| PTicked   (* received from ticker.C, quit not yet polled *)
+| PPolled   (* the poll saw quit open: about to ping *)
+| PPinged.  (* the ping has run *)
+
+Fixpoint resolve (ph : phase) (pending closed : bool) (evs : list ev) : list sel :=
   match evs with
   | [] => []
-  | EFire :: r => resolve true closed r
-  | ECloseQuit :: r => resolve pending true r
+  | EFire :: r => resolve ph true closed r
+  | ECloseQuit :: r => resolve ph pending true r
   | ESelect b :: r =>
-      match pending, closed with
-      | false, false => resolve false false r
-      | true, false => STick :: resolve false false r
-      | false, true => SQuit :: resolve false true r
-      | true, true => SQuit :: resolve true true r   (* whichever case the runtime picks: on a tick
-                                                       the loop first polls quit, the end wins *)
+      match ph with
+      | PIdle =>
+          match pending, closed with
+          | false, false => resolve PIdle false false r
+          | true, false => resolve PTicked false false r
+          | false, true => SQuit :: resolve PIdle false true r
+          | true, true => if b then resolve PTicked false true r else SQuit :: resolve PIdle true true r
+          end
+      | _ => resolve ph pending closed r
+      end
+  | EPoll :: r =>
+      match ph with
+      | PTicked => if closed then SQuit :: resolve PIdle pending closed r else resolve PPolled pending closed r
+      | _ => resolve ph pending closed r
+      end
+  | EPing :: r =>
+      match ph with
+      | PPolled => resolve PPinged pending closed r
+      | _ => resolve ph pending closed r
+      end
+  | ERecheck :: r =>
+      match ph with
+      | PPinged => (if closed then STickLate else STick) :: resolve PIdle pending closed r
+      | _ => resolve ph pending closed r
       end
   end.
 
 Definition count_fire (evs : list ev) : nat :=
   length (filter (fun e => match e with EFire => true | _ => false end) evs).
+(* the loop is past the poll: one ping is (or may be) under way *)
+Definition past_poll (ph : phase) : bool := match ph with PPolled | PPinged => true | _ => false end.
+(* a tick has been received and not yet turned into an iteration *)
+Definition in_tick (ph : phase) : bool := match ph with PIdle => false | _ => true end.
+(* one full iteration with nothing in between *)
+Definition round (b : bool) : list ev := [EFire; ESelect b; EPoll; EPing; ERecheck].
 
 (* ---- the transport object outlives its connections ----
-   Client.Connect / Client.Resume re-use the same Transport: XMPPTransport.Connect replaces
-   t.conn.  Close waits (up to ConnectTimeout) between writing the closing tag and closing the
-   connection: it closes the connection it was ENTERED with, whatever t.conn is by then. *)
-Definition xmpp_close_target (conn_at_entry conn_after_wait : N) : N := conn_at_entry.
+   Client.Connect / Client.Resume re-use the same Transport: XMPPTransport.Connect replaces t.conn.
+   Close captures t.conn (and readWriter, closeChan) when it is entered and acts on that connection,
+   also after its wait of up to ConnectTimeout. *)
 
-(* one attempt of Client.Resume on that object *)
+(* Ping and Close read t.conn when they are ENTERED; XMPPTransport.Connect replaces it, by nil when the
+   dial fails.  A run of one loop interleaved with the dials of the client it belongs to: *)
+Inductive tev :=
+| TAct (a : act)             (* an action of the loop *)
+| TDial (c : option N).      (* XMPPTransport.Connect: the transport now holds connection c (None: dial failed) *)
+Inductive cact2 :=
+| CW (c : N) (d : str)       (* written on connection c *)
+| CC (c : N)                 (* connection c closed *)
+| CNoConn.                   (* Ping without a connection: "no connection", nothing written *)
+Fixpoint conn_run (cur : option N) (l : list tev) : list cact2 :=
+  match l with
+  | [] => []
+  | TDial c :: r => conn_run c r
+  | TAct a :: r =>
+      (match a, cur with
+       | (APingOk | APingFail), Some c => [CW c ping_data]
+       | (APingOk | APingFail), None => [CNoConn]
+       | AClose, Some c => [CW c stream_close_data; CC c]
+       | _, _ => []
+       end) ++ conn_run cur r
+  end.
+Definition touches (c : N) (x : cact2) : bool :=
+  match x with CW c' _ | CC c' => N.eqb c c' | CNoConn => false end.
+Definition closes_conn (x : cact2) : bool := match x with CC _ => true | _ => false end.
+Definition is_dial (e : tev) : bool := match e with TDial _ => true | _ => false end.
+Definition act_of (e : tev) : list act := match e with TAct a => [a] | _ => [] end.
+
+(* one attempt of Client.Connect or Client.Resume on that object *)
 Inductive attempt :=
-| AttOk             (* session established, PostResumeHook (if any) returned nil *)
-| AttConnectFails   (* connect() returned an error *)
-| AttHookFails.     (* session established but PostResumeHook returned an error: Resume returns it *)
+| AttOk             (* session established, the post-connection hook (if any) returned nil *)
+| AttConnectFails   (* connect() returned an error: no session *)
+| AttHookFails.     (* session established but PostConnectHook / PostResumeHook returned an error,
+                       which Connect / Resume returns *)
 
-(* keep-alive (and receive) loops started by the attempt: none when Resume reports failure *)
-Definition loops_started (a : attempt) : nat := match a with AttOk => 1 | _ => 0 end.
-(* a failed attempt does not leave a session open behind it *)
-Definition attempt_leaves_session (a : attempt) : bool := match a with AttOk => true | _ => false end.
+(* what the attempt does, step by step: is a session established; is it closed again by the attempt
+   itself; how many keep-alive (and receive) loops are started *)
+Record outcome := { o_session : bool; o_closed : bool; o_loops : nat }.
+Definition run_attempt (a : attempt) : outcome :=
+  match a with
+  | AttOk => {| o_session := true; o_closed := false; o_loops := 1 |}
+  | AttConnectFails => {| o_session := false; o_closed := false; o_loops := 0 |}
+  | AttHookFails => {| o_session := true; o_closed := true; o_loops := 0 |}   (* closeUnattendedSession *)
+  end.
+Definition loops_started (a : attempt) : nat := o_loops (run_attempt a).
+(* a session is left up behind the attempt *)
+Definition attempt_leaves_session (a : attempt) : bool :=
+  o_session (run_attempt a) && negb (o_closed (run_attempt a)).
 Fixpoint loops_of (h : list attempt) : nat :=
   match h with [] => 0 | a :: r => loops_started a + loops_of r end.
 Definition is_att_ok (a : attempt) : bool := match a with AttOk => true | _ => false end.
@@ -199,29 +280,20 @@ Definition is_att_ok (a : attempt) : bool := match a with AttOk => true | _ => f
 Definition default_interval : Z := 30000000%Z.
 Definition client_interval (cfg : Z) : Z := if (cfg <=? 0)%Z then default_interval else cfg.
 
-(* ---- how the receive loop (Client.recv) ends a session, as far as the keep-alive is concerned ----
-   In every case it closes quit FIRST, before any application callback runs: the event handler and the
-   error callback are called synchronously and may take arbitrarily long (a StreamManager's handler
-   only returns once a new session is up). *)
-Inductive ending :=
-| EndReadError      (* NextPacket fails: connection lost, or an element it rejects *)
-| EndAnswerFails    (* the answer to an acknowledgement request cannot be written *)
-| EndStreamClose    (* the server's closing tag *)
-| EndStreamError.   (* a stream error from the server (RFC 6120 4.9.1.1: the stream is over) *)
 
-Inductive ract :=
-| RQuit               (* close(keepaliveQuit) *)
-| RRoute              (* the stream error handed to the router, synchronously *)
-| RStreamErrorEvent   (* event handler, StateStreamError *)
-| RErrCall            (* ErrorHandler *)
-| RDisconnectedEvent  (* event handler, StateDisconnected *)
-| RDisconnectCall.    (* c.Disconnect(), then the loop reads on until the connection is gone *)
-
-Definition recv_ending (e : ending) : list ract :=
+(* ---- how the session of a real client ends in the correspondence runs, and what its receive loop
+   reports then (error callbacks, Disconnected events); the receive loop itself is Model/Recv.v ---- *)
+Inductive session_end :=
+| SeNone              (* no receive loop: the harness owns quit *)
+| SeReadFails         (* the read fails (connection reset, or closed under the blocked read) *)
+| SeStreamClose       (* the server's closing tag *)
+| SeStreamError       (* a stream error, Disconnect, then the read fails *)
+| SeHandedOver.       (* a stream error whose handler reconnected: the loop returns, no Disconnected event *)
+Definition session_report (e : session_end) : nat * nat :=
   match e with
-  | EndReadError | EndAnswerFails => [RQuit; RErrCall; RDisconnectedEvent]
-  | EndStreamClose => [RQuit; RDisconnectedEvent]
-  | EndStreamError => [RQuit; RRoute; RStreamErrorEvent; RErrCall; RDisconnectCall]
+  | SeNone => (0, 0)
+  | SeReadFails => (1, 1)
+  | SeStreamClose => (0, 1)
+  | SeStreamError => (2, 1)
+  | SeHandedOver => (1, 0)
   end.
-Definition is_callback (a : ract) : bool :=
-  match a with RStreamErrorEvent | RErrCall | RDisconnectedEvent | RRoute => true | _ => false end.
